@@ -322,6 +322,18 @@ theorem jsV_setOf (R S) (sz : SizeOpts) (s : PyVal) (ys : List PyVal)
   refine ⟨⟨⟨?_, h2.1⟩, h2.2⟩, itemsSingle_ok R S ctx s ys hs hall⟩
   simp [jsKws, kw, kwOf, kwOfStr, kwNode, kwLeaf, typeOk, typeIs, hu]
 
+/-- untyped `Set` -/
+theorem jsV_setAny (R S) (sz : SizeOpts) (ys : List PyVal)
+    (hu : jsonNodup ys = true) (hsz : sizeOk sz ys.length = true) :
+    jsV R S (.dict (setKws sz none)) (.list ys) = true := by
+  rw [jsV_dict _ _ _ _ (getKw_ref_setKws sz none)]
+  suffices h : ∀ ctx, jsKws R S ctx (setKws sz none) (.list ys) = true from h _
+  intro ctx
+  simp only [setKws, jsKws_append, and_true_iff']
+  have h2 := sizeKws_ok R S ctx sz ys hsz
+  refine ⟨⟨⟨?_, h2.1⟩, h2.2⟩, rfl⟩
+  simp [jsKws, kw, kwOf, kwOfStr, kwNode, kwLeaf, typeOk, typeIs, hu]
+
 theorem getKw_ref_tupKws (u : Bool) (ss : List PyVal) : getKw "$ref" (tupKws u ss) = none := by
   cases u <;> simp [tupKws, getKw_append, getKw_optKw, getKw, kw, keyIs]
 
